@@ -1467,3 +1467,60 @@ Proof.
   rewrite (point_eta q). apply (line_row_run _ a b); try assumption.
   pose proof (sorted_ys t) as Hs. cbv zeta in Hs. unfold ldy. cbn [l_start l_end]. lia.
 Qed.
+
+(* ======================================================================== *)
+(* 8. the range hypothesis: no i32 overflow in area_doubled / contains         *)
+(* ======================================================================== *)
+Lemma mul_bound a b A B : - A <= a <= A -> - B <= b <= B -> - (A * B) <= a * b <= A * B.
+Proof. intros Ha Hb. nia. Qed.
+
+Definition fits_i32 (x : Z) : Prop := -2147483648 <= x <= 2147483647.
+
+(* Within tri_ok, and for p inside the bounding box (the only points for which contains() evaluates s and t), every
+   product and every partial sum of area_doubled (mod.rs:187), of s and t (mod.rs:97-98) and s + t (mod.rs:114, 116),
+   in the order in which Rust evaluates them, fits an i32. *)
+Lemma tri_no_overflow t p : tri_ok t -> contains (tri_bounding_box t) p = true ->
+  let x1 := px (v1 t) in let y1 := py (v1 t) in let x2 := px (v2 t) in let y2 := py (v2 t) in
+  let x3 := px (v3 t) in let y3 := py (v3 t) in let qx := px p in let qy := py p in
+  (* area_doubled: -p2.y * p3.x + p1.y * (p3.x - p2.x) + p1.x * (p2.y - p3.y) + p2.x * p3.y *)
+  fits_i32 ((- y2) * x3) /\ fits_i32 (y1 * (x3 - x2)) /\ fits_i32 ((- y2) * x3 + y1 * (x3 - x2)) /\
+  fits_i32 (x1 * (y2 - y3)) /\ fits_i32 ((- y2) * x3 + y1 * (x3 - x2) + x1 * (y2 - y3)) /\
+  fits_i32 (x2 * y3) /\ fits_i32 (area_doubled t) /\
+  (* s = p1.y * p3.x - p1.x * p3.y + (p3.y - p1.y) * p.x + (p1.x - p3.x) * p.y *)
+  fits_i32 (y1 * x3) /\ fits_i32 (x1 * y3) /\ fits_i32 (y1 * x3 - x1 * y3) /\
+  fits_i32 ((y3 - y1) * qx) /\ fits_i32 (y1 * x3 - x1 * y3 + (y3 - y1) * qx) /\
+  fits_i32 ((x1 - x3) * qy) /\ fits_i32 (y1 * x3 - x1 * y3 + (y3 - y1) * qx + (x1 - x3) * qy) /\
+  (* t = p1.x * p2.y - p1.y * p2.x + (p1.y - p2.y) * p.x + (p2.x - p1.x) * p.y *)
+  fits_i32 (x1 * y2) /\ fits_i32 (y1 * x2) /\ fits_i32 (x1 * y2 - y1 * x2) /\
+  fits_i32 ((y1 - y2) * qx) /\ fits_i32 (x1 * y2 - y1 * x2 + (y1 - y2) * qx) /\
+  fits_i32 ((x2 - x1) * qy) /\ fits_i32 (x1 * y2 - y1 * x2 + (y1 - y2) * qx + (x2 - x1) * qy) /\
+  (* s + t *)
+  fits_i32 (y1 * x3 - x1 * y3 + (y3 - y1) * qx + (x1 - x3) * qy + (x1 * y2 - y1 * x2 + (y1 - y2) * qx + (x2 - x1) * qy)).
+Proof.
+  intros Hok Hbb.
+  assert (Hp : tpoint_ok p).
+  { destruct Hok as (A & B & C). apply contains_spec in Hbb. destr_tri t. destruct p as [qx qy].
+    unfold tri_bounding_box, with_corners, size_from_bounding_box, tpoint_ok, tbound in *.
+    cbn [v1 v2 v3 px py tl sz sw sh] in *. lia. }
+  destruct Hok as (A & B & C). unfold tpoint_ok, tbound in *. cbv zeta. unfold area_doubled.
+  set (x1 := px (v1 t)) in *. set (y1 := py (v1 t)) in *. set (x2 := px (v2 t)) in *. set (y2 := py (v2 t)) in *.
+  set (x3 := px (v3 t)) in *. set (y3 := py (v3 t)) in *. set (qx := px p) in *. set (qy := py p) in *.
+  clearbody x1 y1 x2 y2 x3 y3 qx qy. clear Hbb.
+  pose proof (mul_bound (- y2) x3 8192 8192 ltac:(lia) ltac:(lia)) as M1.
+  pose proof (mul_bound y1 (x3 - x2) 8192 16384 ltac:(lia) ltac:(lia)) as M2.
+  pose proof (mul_bound x1 (y2 - y3) 8192 16384 ltac:(lia) ltac:(lia)) as M3.
+  pose proof (mul_bound x2 y3 8192 8192 ltac:(lia) ltac:(lia)) as M4.
+  pose proof (mul_bound y1 x3 8192 8192 ltac:(lia) ltac:(lia)) as M5.
+  pose proof (mul_bound x1 y3 8192 8192 ltac:(lia) ltac:(lia)) as M6.
+  pose proof (mul_bound (y3 - y1) qx 16384 8192 ltac:(lia) ltac:(lia)) as M7.
+  pose proof (mul_bound (x1 - x3) qy 16384 8192 ltac:(lia) ltac:(lia)) as M8.
+  pose proof (mul_bound x1 y2 8192 8192 ltac:(lia) ltac:(lia)) as M9.
+  pose proof (mul_bound y1 x2 8192 8192 ltac:(lia) ltac:(lia)) as M10.
+  pose proof (mul_bound (y1 - y2) qx 16384 8192 ltac:(lia) ltac:(lia)) as M11.
+  pose proof (mul_bound (x2 - x1) qy 16384 8192 ltac:(lia) ltac:(lia)) as M12.
+  set (m1 := (- y2) * x3) in *. set (m2 := y1 * (x3 - x2)) in *. set (m3 := x1 * (y2 - y3)) in *. set (m4 := x2 * y3) in *.
+  set (m5 := y1 * x3) in *. set (m6 := x1 * y3) in *. set (m7 := (y3 - y1) * qx) in *. set (m8 := (x1 - x3) * qy) in *.
+  set (m9 := x1 * y2) in *. set (m10 := y1 * x2) in *. set (m11 := (y1 - y2) * qx) in *. set (m12 := (x2 - x1) * qy) in *.
+  clearbody m1 m2 m3 m4 m5 m6 m7 m8 m9 m10 m11 m12.
+  unfold fits_i32. repeat split; lia.
+Qed.
